@@ -60,6 +60,8 @@ func (e *Enc) callWith(fr *Frame, c *ssa.CallCommon, site ssa.Instruction, st *S
 	if callee.Clo == nil {
 		// dynamic call of an unknown function value
 		e.havocked["dynamic call in "+funcShort(fr.fn)] = true
+		st = e.Leak(st, args...)
+		st = e.Leak(st, callee)
 		return e.freshVal("dyn", resType), e.Havoc(st, e.modAllHeap()), rb
 	}
 	fn := callee.Clo.Fn
@@ -101,25 +103,12 @@ func (e *Enc) canInline(fr *Frame, fn *ssa.Function) bool {
 	if ct := e.w.ct.Funcs[fnKey(fn)]; ct != nil && ct.Inline {
 		return true
 	}
-	pkg := fn.Pkg
-	if pkg == nil && fn.Origin() != nil {
-		pkg = fn.Origin().Pkg
-	}
-	if pkg == nil && fn.Parent() != nil {
-		p := fn.Parent()
-		for p.Parent() != nil {
-			p = p.Parent()
-		}
-		pkg = p.Pkg
-		if pkg == nil && p.Origin() != nil {
-			pkg = p.Origin().Pkg
-		}
-	}
-	if pkg == nil {
+	pkgPath := fnPkgPath(fn)
+	if pkgPath == "" {
 		// wrappers / bound method closures: inline when small
 		return fn.Synthetic != "" && len(fn.Blocks) <= 4
 	}
-	if !strings.HasPrefix(pkg.Pkg.Path(), modulePath) {
+	if !strings.HasPrefix(pkgPath, modulePath) {
 		return false
 	}
 	n := 0
@@ -128,7 +117,7 @@ func (e *Enc) canInline(fr *Frame, fn *ssa.Function) bool {
 	}
 	// closures and the small generic helpers of internal/x are always inlined; other in-repo
 	// functions only when small (bigger ones need a contract, otherwise they are havocked)
-	if fn.Parent() != nil || strings.HasPrefix(pkg.Pkg.Path(), modulePath+"/internal/x") {
+	if fn.Parent() != nil || strings.HasPrefix(pkgPath, modulePath+"/internal/x") {
 		return n <= 400
 	}
 	return n <= e.w.inlineBudget && fr.depth < 4
@@ -210,7 +199,10 @@ func (e *Enc) defaultCall(fr *Frame, key string, args []Val, st *State, rb Term,
 		return res, st, rb
 	}
 	e.havocked[key] = true
-	return res, e.Havoc(st, e.modAllHeapFor(inRepo)), rb
+	st = e.Leak(st, args...)
+	st = e.Havoc(st, e.modAllHeapFor(inRepo))
+	e.assumeNotPrivate(res, st)
+	return res, st, rb
 }
 
 func (e *Enc) modAllHeapFor(inRepo bool) func(string) bool {
@@ -224,7 +216,7 @@ func (e *Enc) modAllHeapFor(inRepo bool) func(string) bool {
 		if strings.HasPrefix(c, "$") && c != "$alloc" {
 			return e.w.ambientGhost(c) // other ghost state is only changed by contracts that say so
 		}
-		if strings.HasPrefix(c, "F:") && e.w.immutableFieldComp(c) {
+		if (strings.HasPrefix(c, "F:") || (strings.HasPrefix(c, "C:") && inRepo)) && e.w.immutableFieldComp(c) {
 			e.immut[c] = true
 			return false
 		}
@@ -268,10 +260,13 @@ func (e *Enc) applyContract(fr *Frame, ct *Contract, key string, sig *types.Sign
 	post := st
 	if !ct.Pure {
 		mod := e.modFromContract(ct)
-		post = e.Havoc(st, mod)
+		post = e.Havoc(e.Leak(st, args...), mod)
 	}
 	res := e.freshVal("res_"+short, resType)
 	e.assumeAllocated(res, post)
+	if !ct.Pure {
+		e.assumeNotPrivate(res, post)
+	}
 	env.setResults(res, sig)
 	// call log
 	if ct.Logged != "" {
@@ -316,7 +311,7 @@ func matchComp(p, c string) bool {
 	p = strings.TrimSpace(p)
 	switch {
 	case p == "*":
-		return !strings.HasPrefix(c, "L:")
+		return !strings.HasPrefix(c, "L:") && (!strings.HasPrefix(c, "$") || c == "$alloc")
 	case strings.HasPrefix(p, "ghost "):
 		return c == "$"+strings.TrimSpace(strings.TrimPrefix(p, "ghost "))
 	case strings.HasPrefix(p, "$"):
@@ -427,6 +422,27 @@ func (e *Enc) builtin(fr *Frame, b *ssa.Builtin, c *ssa.CallCommon, args []Val, 
 		if vs, isStr := v.Typ.Underlying().(*types.Basic); isStr && vs.Info()&types.IsString != 0 {
 			e.unsupported(fr, "append([]byte, string...)")
 			return e.freshVal("append", resType), st, rb
+		}
+		st = e.Leak(st, v)
+		if len(c.Args) > 1 {
+			// elements of a varargs backing array are stored into the new backing store
+			if sl, ok := c.Args[1].(*ssa.Slice); ok {
+				if al, ok := sl.X.(*ssa.Alloc); ok {
+					if refs := al.Referrers(); refs != nil {
+						for _, r := range *refs {
+							if ia, ok := r.(*ssa.IndexAddr); ok {
+								if irefs := ia.Referrers(); irefs != nil {
+									for _, rr := range *irefs {
+										if sto, ok := rr.(*ssa.Store); ok {
+											st = e.Leak(st, e.value(fr, sto.Val))
+										}
+									}
+								}
+							}
+						}
+					}
+				}
+			}
 		}
 		vlen := "(sl_len " + v.T + ")"
 		// result contents: copy of old, then the appended elements.
@@ -564,7 +580,7 @@ func (e *Enc) loopModSet(fr *Frame, body map[*ssa.BasicBlock]bool) func(string) 
 				e.addContractMods(ct, set, &all, &allRepo, &pats, &logs)
 				return
 			}
-			if v.Blocks != nil && v.Pkg != nil && strings.HasPrefix(v.Pkg.Pkg.Path(), modulePath) || (v.Blocks != nil && v.Origin() != nil) {
+			if v.Blocks != nil && strings.HasPrefix(fnPkgPath(v), modulePath) {
 				scanFn(v, depth+1)
 				return
 			}
